@@ -445,6 +445,10 @@ func (e *stExec) templates(viaStore bool) (comet.VectorIndex, comet.TextIndex, c
 	return v, t, m, nil
 }
 
+// storeErr names the outcome of a store call: "ok", or the CLASS of the error. The class is
+// guessed from the message text, which no property constrains, and is informational only: the
+// driver compares success against failure (Proto.lean, sameOutcome) and shows the class as a
+// histogrammed flag. A reworded message lands in "other" and is still "the call failed".
 func storeErr(err error) string {
 	switch {
 	case err == nil:
@@ -1069,10 +1073,7 @@ func (e *stExec) badAdd(cmd stCmd) {
 	}
 	out := "ok"
 	if err != nil {
-		out = "err"
-		if storeErr(err) == "closed" {
-			out = "closed"
-		}
+		out = "err " + storeErr(err) // any error is a refusal; the class is informational
 	}
 	e.emit("op badadd %d %d %d => %s", vd, tl, mc, out)
 }
